@@ -432,7 +432,9 @@ func chkTriple(st *stats, z pzone, x, y, w tval, cxy, cyw, cxw int) {
 			}
 		}
 	}
-	tj := func(t tval) obj { return obj{"s": t.s, "m": methodNames[t.m], "value": t.v.String(), "type": kindNames[kindOf(t.v)]} }
+	tj := func(t tval) obj {
+		return obj{"s": t.s, "m": methodNames[t.m], "value": t.v.String(), "type": kindNames[kindOf(t.v)]}
+	}
 	fail("c17.transitivity", class, obj{"a": tj(x), "b": tj(y), "c": tj(w), "zone": z.name, "options": []string{"WithTZ"},
 		"path": "$[0].M1() OP $[1].M2() on the pairs (a,b) (b,c) (a,c)"},
 		"a<=b and b<=c imply a<=c (strict if one of them is)",
